@@ -39,9 +39,9 @@ def effective(leaves, derived):
 
 
 # ------------------------------------------------------------------------------------------------ representations
-NN_REPS = ("nn_dup", "nn_flat", "nn_nested", "nn_method_mixed", "nn_tied", "em_nn", "em_nn_reordered", "sib_multi_nn", "sib_single_nn",
+NN_REPS = ("nn_dup", "nn_memalias", "nn_flat", "nn_nested", "nn_method_mixed", "nn_tied", "em_nn", "em_nn_reordered", "sib_multi_nn", "sib_single_nn",
            "sib_multi_plainmid", "sib_multi_plainfirst")
-REPS = ("pure", "pure_nontensor", "pure_dup", "nn_dup", "jit", "nn_flat", "nn_nested", "nn_method_mixed", "nn_tied",
+REPS = ("pure", "pure_nontensor", "pure_dup", "nn_dup", "nn_memalias", "em_memalias", "jit", "nn_flat", "nn_nested", "nn_method_mixed", "nn_tied",
         "em_flat", "em_container", "em_alias", "em_nn", "em_nn_reordered", "em_mixed",
         "sib_single", "sib_single_nn", "sib_multi", "sib_multi_shared", "sib_multi_nn", "sib_multi_plainmid", "sib_multi_plainfirst")
 
@@ -96,6 +96,36 @@ def build(rep, core, nlead, eff, s):
                 return core(*lead, 0.25 * self.a + 0.75 * pa2, self.b, 0.5 * (self.W + pW2), s)
         m = M(a, b, W)
         return Built(m.forward, (a, W), [("m", m)], (0, 1))
+
+    if rep == "nn_memalias":
+        # the module also holds a frozen Parameter that is a DISTINCT object sharing memory, shape and strides with `a`
+        class M(torch.nn.Module):
+            def __init__(self, a, b, W):
+                super().__init__()
+                self.a = a
+                self.a_frozen_view = torch.nn.Parameter(a.detach(), requires_grad=False)
+                self.b, self.W = b, W
+
+            def forward(self, *lead):
+                return core(*lead, self.a + 0.0 * self.a_frozen_view, self.b, self.W, s)
+        m = M(a, b, W)
+        return Built(m.forward, (), [("m", m)], ())
+
+    if rep == "em_memalias":
+        class E(xitorch.EditableModule):
+            def __init__(self, a, b, W):
+                self.a, self.b, self.W = a, b, W
+                self.views = [a.detach(), W.detach().view(W.shape)]      # distinct objects, same memory / shape / strides
+
+            def h(self, *lead):
+                return core(*lead, self.a + 0.0 * self.views[0], self.b, self.W + 0.0 * self.views[1], s)
+
+            def getparamnames(self, methodname, prefix=""):
+                if methodname == "h":
+                    return [prefix + "views[0]", prefix + "a", prefix + "b", prefix + "W", prefix + "views[1]"]
+                raise KeyError(methodname)
+        e = E(a, b, W)
+        return Built(e.h, (), [("e", e)], ())
 
     if rep == "jit":
         if core not in _SCRIPTED:
@@ -434,6 +464,19 @@ def _run_hess(which):
     return run
 
 
+def _run_opsolve(which, method):
+    """the Jacobian / Hessian operator of the function used as A in solve (its parameters are substituted in solve's backward)"""
+    def run(built, d, dtype, extra):
+        from xitorch.grad import jac, hess
+        from xitorch.linalg import solve
+        tg = torch.Generator().manual_seed(977 + d)
+        y = (torch.randn(d, generator=tg, dtype=dtype) * 0.3).requires_grad_()
+        B = torch.randn(d, 2, generator=tg, dtype=dtype)
+        A = (jac if which == "jac" else hess)(built.fcn, (y, *built.params), idxs=0)
+        return solve(A, B, method=method, rtol=1e-11, atol=1e-13)
+    return run
+
+
 FUNCTIONALS = {
     "rootfinder:broyden1": Functional("rootfinder:broyden1", core_root, 1, _run_rootfinder("broyden1"), True),
     "rootfinder:newton": Functional("rootfinder:newton", core_root, 1, _run_rootfinder("newton"), True),
@@ -454,6 +497,9 @@ FUNCTIONALS = {
     "jac:full": Functional("jac:full", core_root, 1, _run_jac("full")),
     "hess:mv": Functional("hess:mv", core_min, 1, _run_hess("mv")),
     "hess:full": Functional("hess:full", core_min, 1, _run_hess("full")),
+    "jacsolve:bicgstab": Functional("jacsolve:bicgstab", core_root, 1, _run_opsolve("jac", "bicgstab"), True),
+    "jacsolve:custom_exactsolve": Functional("jacsolve:custom_exactsolve", core_root, 1, _run_opsolve("jac", "custom_exactsolve")),
+    "hesssolve:cg": Functional("hesssolve:cg", core_min, 1, _run_opsolve("hess", "cg"), True),
 }
 
 
